@@ -147,6 +147,9 @@ func generatorDisagrees(pc pcase, in []pobj) string {
 		for _, f := range fs {
 			for _, t := range f.Docs {
 				if d := docTypes[t].Dest; d != "nothing" {
+					if strings.HasPrefix(f.Name[strings.LastIndex(f.Name, "/")+1:], "_") {
+						d = "never:partial" // the file itself is a partial
+					}
 					want[d]++
 				}
 			}
@@ -728,10 +731,45 @@ func runPartition(c *core.Ctx) {
 		c.Bound("partition.K", fmt.Sprintf("two kinds outside the kind tables: 1 file x 1..%d docs over {ConfigMap,Widget,Gadget}; 2 files x 1..2 docs over {Widget,Gadget,ConfigMap,Service}; 3 files x 1..2 docs over {Widget,Gadget}", maxDocs))
 	})
 
+	// P: "partial" is decided by the file's own name only. A resource template inside a directory whose name
+	// starts with an underscore (templates/_internal/cm.yaml) is rendered and must be applied; a file whose own
+	// name starts with an underscore is a partial wherever it lives (templates/dir/_helpers.tpl)
+	part("P", func() {
+		alpha := []int{dCM, dSvc, dHook, dHookU}
+		subs := [][]fileSpec{nil, {{Name: "templates/_x/y.yaml", Docs: []int{dCM}}}, {{Name: "templates/_x/y.yaml", Docs: []int{dHook}}}}
+		for _, u := range fileVariants("templates/_internal/cm.yaml", alpha, 1, 2, []int{jPlain}, no, no, no) {
+			for _, plain := range yesNo {
+				for _, control := range yesNo {
+					for _, sub := range subs {
+						for _, real := range yesNo {
+							if real && len(u.Docs) > 1 {
+								continue
+							}
+							files := []fileSpec{u}
+							if plain {
+								files = append(files, fileSpec{Name: "templates/a.yaml", Docs: []int{dCM}})
+							}
+							if control {
+								files = append(files, fileSpec{Name: "templates/dir/_helpers.tpl", Docs: []int{dCM}})
+							}
+							e.do(pcase{Files: files, SubOn: sub != nil, Sub: sub, Real: real})
+						}
+					}
+				}
+			}
+		}
+		// the subchart's underscore directory alone, and the control alone
+		for _, real := range yesNo {
+			e.do(pcase{Files: []fileSpec{{Name: "templates/a.yaml", Docs: []int{dCM}}}, SubOn: true, Sub: subs[1], Real: real})
+			e.do(pcase{Files: []fileSpec{{Name: "templates/a.yaml", Docs: []int{dCM}}, {Name: "templates/dir/_helpers.tpl", Docs: []int{dCM}}}, Real: real})
+		}
+		c.Bound("partition.P", "templates/_internal/cm.yaml (1..2 docs over 4 types) x templates/a.yaml{0,1} x control partial templates/dir/_helpers.tpl{0,1} x subchart templates/_x/y.yaml{none,cm,hook}; dry run and (single-document files) real install+uninstall")
+	})
+
 	// H: the hook-annotation alphabet, including a hook annotation that is present but names nothing
 	// (exactly empty, null, whitespace only): such a document names no known event and is dropped
 	part("H", func() {
-		alpha := []int{dCM, dSvc, dHook, dHookU, dHookEmpty, dHookNull}
+		alpha := []int{dCM, dSvc, dHook, dHookU, dHookEmpty, dHookNull, dHookCase}
 		if thorough {
 			alpha = append(alpha, dHookKU, dHookTilde, dHookWs)
 		}
@@ -808,7 +846,7 @@ func runPartition(c *core.Ctx) {
 	})
 
 	part("U", func() {
-		alpha := []int{dCM, dSvc, dNS, dDep, dWidget, dKeep, dHook, dHookU, dHookEmpty, dHookNull}
+		alpha := []int{dCM, dSvc, dNS, dDep, dWidget, dKeep, dHook, dHookU, dHookEmpty, dHookNull, dHookCase}
 		maxDocs := 3
 		if thorough {
 			maxDocs = 4
